@@ -5,7 +5,6 @@ import PyTRS.Model.Unpack
 namespace PyTRS.TRS
 open PyTRS PyTRS.Unpack
 
-def S (s : String) : Str := s.toList
 
 /-- the `dict` returned by `trs_to_dict` -/
 structure TrsDict where
@@ -39,7 +38,7 @@ def trsToDict (trsIn : Option Str) : TrsDict :=
     | some [] => S Gen.UNDEF_TRS
     | some s => s
   let trs := pyLower trs0
-  match unpacker.rx.search trs with
+  match unpacker.rx.fullmatch trs with
   | none => errDict
   | some mo =>
     let g := fun n => unpacker.group mo trs n
